@@ -185,8 +185,11 @@ def run_crashmon(prop, tier, t0):
                                'rmdir/mkdir*/ftruncate/fsync/fdatasync/chmod/link/symlink), plus a half-written variant of '
                                'every write; the page cache survives (no power loss), so durability of un-synced data is not tested',
                                'crashing before a non-mutating call is state-equivalent to crashing before the next mutating one',
+                               'crash-restart-crash histories are two operations deep: a quarter of the triples continue from two '
+                               'of their own crash states with one further operation (every kill point of it swept)',
                            ], required_counters=['c13_crash_states_judged', 'c13_triples_fully_swept', 'c13_kill_before_rename',
-                                                 'c13_kill_before_write', 'c13_reader_processes'])
+                                                 'c13_kill_before_write', 'c13_reader_processes',
+                                                 'c13_second_crash_states_judged', 'c13_second_kill_before_rename'])
 
 
 def run_concmon(prop, tier, t0):
